@@ -1,6 +1,7 @@
-(* Lemmas about Model/RouterMap.v: association-list facts, the general invariant, exact
-   correspondence with the specification under distinct identities, and the exact behaviour
-   under colliding identities. *)
+(* Lemmas about Model/RouterMap.v: association-list facts, the ownership guard, the general
+   invariant, what holds for every history (the latest claimant of an identity is reachable), exact
+   correspondence with the specification under distinct identities, and the exact behaviour under
+   colliding identities. *)
 From RZ Require Import Base.Prelude Model.RouterMap.
 Local Open Scope N_scope.
 
@@ -130,25 +131,70 @@ Definition sget_set_neq := @aget_aset_neq pipe (ident * strat) N.eqb N.eqb_eq.
 Definition sget_rm_eq := @aget_aremove_eq pipe (ident * strat) N.eqb.
 Definition sget_rm_neq := @aget_aremove_neq pipe (ident * strat) N.eqb N.eqb_eq.
 
+(* ------------------------------------------------------------------ the ownership guard *)
+Lemma owned_by_fget p j m :
+  owned_by p j (fwd m) = match fget j m with Some (_, o) => o =? p | None => false end.
+Proof. unfold owned_by, fget, owner. destruct (aget ident_eqb j (fwd m)) as [[[u s] o]|]; reflexivity. Qed.
+Lemma owned_by_set_neq p j id v f : j <> id -> owned_by p j (aset ident_eqb id v f) = owned_by p j f.
+Proof. intros N. unfold owned_by. rewrite fget_set_neq by exact N. reflexivity. Qed.
+Lemma rio_aget p id f j :
+  aget ident_eqb j (remove_if_owner p id f) = if ident_eqb id j && owned_by p id f then None else aget ident_eqb j f.
+Proof.
+  unfold remove_if_owner. destruct (owned_by p id f); [|rewrite andb_false_r; reflexivity].
+  rewrite andb_true_r. destruct (ident_eqb id j) eqn:F.
+  - apply ident_eqb_eq in F. subst. apply fget_rm_eq.
+  - apply fget_rm_neq. intros ->. rewrite ident_eqb_refl in F. discriminate.
+Qed.
+Lemma nodup_rio p id (f : list (ident * info)) : NoDup (map fst f) -> NoDup (map fst (remove_if_owner p id f)).
+Proof. intros H. unfold remove_if_owner. destruct (owned_by p id f); [apply (nodup_aremove ident_eqb ident_eqb_eq)|]; exact H. Qed.
+
+(* The forward entry a pipe-driven operation of pipe p takes away: the entry of the identity p is
+   recorded under, and only if p owns it. *)
+Definition releases (p : pipe) (m : rmap) (j : ident) : bool :=
+  match rget p m with Some o => ident_eqb o j && owned_by p j (fwd m) | None => false end.
+Lemma releases_true_iff p m j :
+  releases p m j = true <-> rget p m = Some j /\ exists u st, fget j m = Some (u, st, p).
+Proof.
+  unfold releases. rewrite owned_by_fget. destruct (rget p m) as [o|]; [|split; [discriminate|intros [H _]; discriminate]].
+  rewrite andb_true_iff, ident_eqb_eq. split.
+  - intros [-> H]. split; [reflexivity|]. destruct (fget j m) as [[[u st] o']|]; [|discriminate].
+    apply N.eqb_eq in H. subst. eauto.
+  - intros [E (u & st & F)]. inversion E; subst. rewrite F. split; [reflexivity|apply N.eqb_refl].
+Qed.
+Lemma releases_nonowner p m j u st o : fget j m = Some (u, st, o) -> o <> p -> releases p m j = false.
+Proof.
+  intros F N. destruct (releases p m j) eqn:E; [|reflexivity].
+  apply releases_true_iff in E. destruct E as (_ & u' & st' & F'). congruence.
+Qed.
+Lemma releases_absent p m j : fget j m = None -> releases p m j = false.
+Proof.
+  intros F. destruct (releases p m j) eqn:E; [|reflexivity].
+  apply releases_true_iff in E. destruct E as (_ & u' & st' & F'). congruence.
+Qed.
+Lemma releases_other_identity p m i j : rget p m = Some i -> j <> i -> releases p m j = false.
+Proof.
+  intros R N. destruct (releases p m j) eqn:E; [|reflexivity].
+  apply releases_true_iff in E. destruct E as (R' & _). congruence.
+Qed.
+
 (* ------------------------------------------------------------------ point-wise behaviour of the four operations *)
-Lemma add_peer_fget_same id p u m : fget id (add_peer id p u m) = Some (u, SDefault).
+Lemma add_peer_fget_same id p u m : fget id (add_peer id p u m) = Some (u, SDefault, p).
 Proof.
   unfold add_peer, fget. destruct (aget N.eqb p (rev m)) as [oid|]; cbn [fwd rev]; [|apply fget_set_eq].
   destruct (ident_eqb oid id) eqn:E; cbn [fwd rev]; [apply fget_set_eq|].
-  rewrite fget_rm_neq; [apply fget_set_eq|]. intros ->. rewrite ident_eqb_refl in E. discriminate.
+  rewrite rio_aget, E. cbn [andb]. apply fget_set_eq.
 Qed.
 Lemma add_peer_fget_other id p u m j :
-  j <> id -> fget j (add_peer id p u m) = if match rget p m with Some o => ident_eqb o j | None => false end
-                                          then None else fget j m.
+  j <> id -> fget j (add_peer id p u m) = if releases p m j then None else fget j m.
 Proof.
-  intros N. unfold add_peer, fget, rget. destruct (aget N.eqb p (rev m)) as [oid|]; cbn [fwd rev].
+  intros N. unfold add_peer, fget, releases, rget. destruct (aget N.eqb p (rev m)) as [oid|]; cbn [fwd rev].
   - destruct (ident_eqb oid id) eqn:E; cbn [fwd rev].
-    + apply ident_eqb_eq in E. subst oid. rewrite (ident_eqb_neq id j) by congruence.
+    + apply ident_eqb_eq in E. subst oid. rewrite (ident_eqb_neq id j) by congruence. cbn [andb].
       apply fget_set_neq. exact N.
-    + destruct (ident_eqb oid j) eqn:F.
-      * apply ident_eqb_eq in F. subst. apply fget_rm_eq.
-      * rewrite fget_rm_neq; [apply fget_set_neq; exact N|].
-        intros ->. rewrite ident_eqb_refl in F. discriminate.
+    + rewrite rio_aget. destruct (ident_eqb oid j) eqn:F; cbn [andb].
+      * apply ident_eqb_eq in F. subst j. rewrite owned_by_set_neq by exact N.
+        rewrite fget_set_neq by exact N. reflexivity.
+      * apply fget_set_neq. exact N.
   - apply fget_set_neq. exact N.
 Qed.
 Lemma add_peer_rget id p u m q : rget q (add_peer id p u m) = if q =? p then Some id else rget q m.
@@ -159,19 +205,17 @@ Proof.
   destruct (N.eqb_spec q p); [subst; apply rget_set_eq|apply rget_set_neq; assumption].
 Qed.
 
-Lemma upd_fget_same p id u t m : fget id (update_peer_identity p id u t m) = Some (u, strat_of_type t).
+Lemma upd_fget_same p id u t m : fget id (update_peer_identity p id u t m) = Some (u, strat_of_type t, p).
 Proof. unfold update_peer_identity, fget. cbn [fwd rev]. apply fget_set_eq. Qed.
 Lemma upd_fget_other p id u t m j :
-  j <> id -> fget j (update_peer_identity p id u t m) =
-             if match rget p m with Some o => ident_eqb o j | None => false end then None else fget j m.
+  j <> id -> fget j (update_peer_identity p id u t m) = if releases p m j then None else fget j m.
 Proof.
-  intros N. unfold update_peer_identity, fget, rget. cbn [fwd rev]. rewrite fget_set_neq by exact N.
+  intros N. unfold update_peer_identity, fget, releases, rget. cbn [fwd rev]. rewrite fget_set_neq by exact N.
   destruct (aget N.eqb p (rev m)) as [oid|]; [|reflexivity].
   destruct (ident_eqb oid id) eqn:E.
   - apply ident_eqb_eq in E. subst. rewrite (ident_eqb_neq id j) by congruence. reflexivity.
-  - destruct (ident_eqb oid j) eqn:F.
-    + apply ident_eqb_eq in F. subst. apply fget_rm_eq.
-    + apply fget_rm_neq. intros ->. rewrite ident_eqb_refl in F. discriminate.
+  - rewrite rio_aget. destruct (ident_eqb oid j) eqn:F; cbn [andb]; [|reflexivity].
+    apply ident_eqb_eq in F. subst. reflexivity.
 Qed.
 Lemma upd_rget p id u t m q : rget q (update_peer_identity p id u t m) = if q =? p then Some id else rget q m.
 Proof.
@@ -180,13 +224,11 @@ Proof.
 Qed.
 
 Lemma rmp_fget p m j :
-  fget j (remove_peer_by_read_pipe p m) =
-  if match rget p m with Some o => ident_eqb o j | None => false end then None else fget j m.
+  fget j (remove_peer_by_read_pipe p m) = if releases p m j then None else fget j m.
 Proof.
-  unfold remove_peer_by_read_pipe, fget, rget. destruct (aget N.eqb p (rev m)) as [oid|]; [|reflexivity].
-  cbn [fwd rev]. destruct (ident_eqb oid j) eqn:F.
-  - apply ident_eqb_eq in F. subst. apply fget_rm_eq.
-  - apply fget_rm_neq. intros ->. rewrite ident_eqb_refl in F. discriminate.
+  unfold remove_peer_by_read_pipe, fget, releases, rget. destruct (aget N.eqb p (rev m)) as [oid|]; [|reflexivity].
+  cbn [fwd rev]. rewrite rio_aget. destruct (ident_eqb oid j) eqn:F; cbn [andb]; [|reflexivity].
+  apply ident_eqb_eq in F. subst. reflexivity.
 Qed.
 Lemma rmp_rget p m q : rget q (remove_peer_by_read_pipe p m) = if q =? p then None else rget q m.
 Proof.
@@ -253,15 +295,15 @@ Lemma nodup_ops :
 Proof.
   intros m F R. repeat split.
   - unfold add_peer. destruct (aget N.eqb p (rev m)); [destruct (ident_eqb _ _)|]; cbn [fwd rev];
-      try apply (nodup_aremove ident_eqb ident_eqb_eq); apply (nodup_aset ident_eqb ident_eqb_eq); exact F.
+      try apply nodup_rio; apply (nodup_aset ident_eqb ident_eqb_eq); exact F.
   - unfold add_peer. destruct (aget N.eqb p (rev m)); [destruct (ident_eqb _ _)|]; cbn [fwd rev];
       apply (nodup_aset N.eqb N.eqb_eq); exact R.
   - unfold update_peer_identity. cbn [fwd rev]. apply (nodup_aset ident_eqb ident_eqb_eq).
     destruct (aget N.eqb p (rev m)); [destruct (ident_eqb _ _)|]; try exact F.
-    apply (nodup_aremove ident_eqb ident_eqb_eq). exact F.
+    apply nodup_rio. exact F.
   - unfold update_peer_identity. cbn [fwd rev]. apply (nodup_aset N.eqb N.eqb_eq). exact R.
   - unfold remove_peer_by_read_pipe. destruct (aget N.eqb p (rev m)); cbn [fwd rev]; [|exact F].
-    apply (nodup_aremove ident_eqb ident_eqb_eq). exact F.
+    apply nodup_rio. exact F.
   - unfold remove_peer_by_read_pipe. destruct (aget N.eqb p (rev m)); cbn [fwd rev]; [|exact R].
     apply (nodup_aremove N.eqb N.eqb_eq). exact R.
   - unfold remove_peer_by_identity. destruct (aget ident_eqb id (fwd m)); cbn [fwd rev]; [|exact F].
@@ -294,23 +336,32 @@ Section Inv.
      EVERY history (colliding identities included):
        - keys are unique in all three;
        - every live pipe has its reverse entry, carrying its latest identity;
-       - every forward entry is backed: some live pipe carries that identity, and the entry holds
-         exactly that pipe's uri and strategy.
-     What does NOT hold in general is the converse of the last point (see collisions below). *)
+       - every forward entry is backed BY ITS RECORDED OWNER: the owner pipe is live, its latest
+         identity is the entry's key, and the entry holds exactly that pipe's uri and strategy.
+     What does NOT hold in general is the converse of the last point: of several live pipes that
+     carry the same identity only one - the latest claimant - owns the entry (see collisions below). *)
   Definition RInv (m : rmap) (s : spec) : Prop :=
     NoDup (map fst (fwd m)) /\ NoDup (map fst (rev m)) /\ NoDup (map fst s) /\
     (forall p i st, sget p s = Some (i, st) -> rget p m = Some i) /\
-    (forall i u st, fget i m = Some (u, st) ->
-        exists p, rget p m = Some i /\ sget p s = Some (i, st) /\ u = uri_of p).
+    (forall i u st o, fget i m = Some (u, st, o) ->
+        rget o m = Some i /\ sget o s = Some (i, st) /\ u = uri_of o).
 
   Lemma sget_filter (f : pipe * (ident * strat) -> bool) p s :
     NoDup (map fst s) ->
     sget p (filter f s) = match sget p s with Some v => if f (p, v) then Some v else None | None => None end.
   Proof. apply (aget_filter N.eqb N.eqb_eq). Qed.
 
+  (* an entry that survives a pipe-driven operation of pipe p is not owned by p *)
+  Lemma kept_owner_differs m s p i u st o :
+    RInv m s -> releases p m i = false -> fget i m = Some (u, st, o) -> o <> p.
+  Proof.
+    intros (_ & _ & _ & _ & BK) RL H ->. destruct (BK _ _ _ _ H) as (Q1 & _ & _).
+    rewrite (proj2 (releases_true_iff p m i)) in RL; [discriminate|]. split; [exact Q1|eauto].
+  Qed.
+
   Lemma RInv_step m s e : RInv m s -> RInv (ev_step m e) (spec_step s e).
   Proof.
-    intros (NF & NR & NS & SR & BK).
+    intros RI. pose proof RI as (NF & NR & NS & SR & BK).
     destruct (nodup_ops m NF NR) as (Na & Nu & Np & Ni).
     destruct e as [p ido|p ido t|p|h id]; simpl.
     - (* attach *)
@@ -321,20 +372,15 @@ Section Inv.
       + intros q i st. unfold sget. rewrite add_peer_rget. destruct (N.eqb_spec q p).
         * subst. rewrite sget_set_eq. intros [= <- <-]. reflexivity.
         * rewrite sget_set_neq by assumption. apply SR.
-      + intros i u st. destruct (ident_eq_dec i id) as [->|N].
-        * rewrite add_peer_fget_same. intros [= <- <-]. exists p. rewrite add_peer_rget, N.eqb_refl.
+      + intros i u st o. destruct (ident_eq_dec i id) as [->|N].
+        * rewrite add_peer_fget_same. intros [= <- <- <-]. rewrite add_peer_rget, N.eqb_refl.
           unfold sget. rewrite sget_set_eq. auto.
         * rewrite add_peer_fget_other by exact N.
-          destruct (rget p m) as [o|] eqn:G.
-          -- destruct (ident_eqb o i) eqn:F; [discriminate|]. intros H.
-             destruct (BK _ _ _ H) as (q & Q1 & Q2 & Q3). exists q.
-             assert (q <> p) as NQ. { intros ->. rewrite G in Q1. inversion Q1; subst. rewrite ident_eqb_refl in F. discriminate. }
-             rewrite add_peer_rget. replace (q =? p) with false by (symmetry; apply N.eqb_neq; exact NQ).
-             unfold sget. rewrite sget_set_neq by exact NQ. auto.
-          -- intros H. destruct (BK _ _ _ H) as (q & Q1 & Q2 & Q3). exists q.
-             assert (q <> p) as NQ. { intros ->. rewrite G in Q1. discriminate. }
-             rewrite add_peer_rget. replace (q =? p) with false by (symmetry; apply N.eqb_neq; exact NQ).
-             unfold sget. rewrite sget_set_neq by exact NQ. auto.
+          destruct (releases p m i) eqn:RL; [discriminate|]. intros H.
+          pose proof (kept_owner_differs m s p i u st o RI RL H) as NQ.
+          destruct (BK _ _ _ _ H) as (Q1 & Q2 & Q3).
+          rewrite add_peer_rget. replace (o =? p) with false by (symmetry; apply N.eqb_neq; exact NQ).
+          unfold sget. rewrite sget_set_neq by exact NQ. auto.
     - (* announce *)
       set (id := eff_id placeholder p ido).
       destruct (Nu p id (uri_of p) t) as [A1 A2].
@@ -343,20 +389,15 @@ Section Inv.
       + intros q i st. unfold sget. rewrite upd_rget. destruct (N.eqb_spec q p).
         * subst. rewrite sget_set_eq. intros [= <- <-]. reflexivity.
         * rewrite sget_set_neq by assumption. apply SR.
-      + intros i u st. destruct (ident_eq_dec i id) as [->|N].
-        * rewrite upd_fget_same. intros [= <- <-]. exists p. rewrite upd_rget, N.eqb_refl.
+      + intros i u st o. destruct (ident_eq_dec i id) as [->|N].
+        * rewrite upd_fget_same. intros [= <- <- <-]. rewrite upd_rget, N.eqb_refl.
           unfold sget. rewrite sget_set_eq. auto.
         * rewrite upd_fget_other by exact N.
-          destruct (rget p m) as [o|] eqn:G.
-          -- destruct (ident_eqb o i) eqn:F; [discriminate|]. intros H.
-             destruct (BK _ _ _ H) as (q & Q1 & Q2 & Q3). exists q.
-             assert (q <> p) as NQ. { intros ->. rewrite G in Q1. inversion Q1; subst. rewrite ident_eqb_refl in F. discriminate. }
-             rewrite upd_rget. replace (q =? p) with false by (symmetry; apply N.eqb_neq; exact NQ).
-             unfold sget. rewrite sget_set_neq by exact NQ. auto.
-          -- intros H. destruct (BK _ _ _ H) as (q & Q1 & Q2 & Q3). exists q.
-             assert (q <> p) as NQ. { intros ->. rewrite G in Q1. discriminate. }
-             rewrite upd_rget. replace (q =? p) with false by (symmetry; apply N.eqb_neq; exact NQ).
-             unfold sget. rewrite sget_set_neq by exact NQ. auto.
+          destruct (releases p m i) eqn:RL; [discriminate|]. intros H.
+          pose proof (kept_owner_differs m s p i u st o RI RL H) as NQ.
+          destruct (BK _ _ _ _ H) as (Q1 & Q2 & Q3).
+          rewrite upd_rget. replace (o =? p) with false by (symmetry; apply N.eqb_neq; exact NQ).
+          unfold sget. rewrite sget_set_neq by exact NQ. auto.
     - (* detach *)
       destruct (Np p) as [A1 A2].
       split; [exact A1|]. split; [exact A2|]. split; [apply (nodup_aremove N.eqb N.eqb_eq); exact NS|].
@@ -364,17 +405,12 @@ Section Inv.
       + intros q i st. unfold sget. rewrite rmp_rget. destruct (N.eqb_spec q p).
         * subst. rewrite sget_rm_eq. discriminate.
         * rewrite sget_rm_neq by assumption. apply SR.
-      + intros i u st. rewrite rmp_fget.
-        destruct (rget p m) as [o|] eqn:G.
-        * destruct (ident_eqb o i) eqn:F; [discriminate|]. intros H.
-          destruct (BK _ _ _ H) as (q & Q1 & Q2 & Q3). exists q.
-          assert (q <> p) as NQ. { intros ->. rewrite G in Q1. inversion Q1; subst. rewrite ident_eqb_refl in F. discriminate. }
-          rewrite rmp_rget. replace (q =? p) with false by (symmetry; apply N.eqb_neq; exact NQ).
-          unfold sget. rewrite sget_rm_neq by exact NQ. auto.
-        * intros H. destruct (BK _ _ _ H) as (q & Q1 & Q2 & Q3). exists q.
-          assert (q <> p) as NQ. { intros ->. rewrite G in Q1. discriminate. }
-          rewrite rmp_rget. replace (q =? p) with false by (symmetry; apply N.eqb_neq; exact NQ).
-          unfold sget. rewrite sget_rm_neq by exact NQ. auto.
+      + intros i u st o. rewrite rmp_fget.
+        destruct (releases p m i) eqn:RL; [discriminate|]. intros H.
+        pose proof (kept_owner_differs m s p i u st o RI RL H) as NQ.
+        destruct (BK _ _ _ _ H) as (Q1 & Q2 & Q3).
+        rewrite rmp_rget. replace (o =? p) with false by (symmetry; apply N.eqb_neq; exact NQ).
+        unfold sget. rewrite sget_rm_neq by exact NQ. auto.
     - (* stale cleanup *)
       destruct (Ni h id) as [A1 A2].
       split; [exact A1|]. split; [exact A2|]. split; [apply nodup_filter; exact NS|].
@@ -385,12 +421,12 @@ Section Inv.
         destruct (rmi_rget h id m NR) as [E|(k & K1 & _ & E)]; rewrite E; [exact SR|].
         destruct (N.eqb_spec q k); [|exact SR]. subst. rewrite K1 in SR. inversion SR; subst.
         rewrite ident_eqb_refl in F. discriminate.
-      + intros i u st. rewrite rmi_fget. destruct (ident_eqb id i) eqn:F; [discriminate|]. intros H.
-        destruct (BK _ _ _ H) as (q & Q1 & Q2 & Q3). exists q.
+      + intros i u st o. rewrite rmi_fget. destruct (ident_eqb id i) eqn:F; [discriminate|]. intros H.
+        destruct (BK _ _ _ _ H) as (Q1 & Q2 & Q3).
         assert (i <> id) as NI. { intros ->. rewrite ident_eqb_refl in F. discriminate. }
         split; [|split; [|exact Q3]].
         * destruct (rmi_rget h id m NR) as [E|(k & K1 & _ & E)]; rewrite E; [exact Q1|].
-          destruct (N.eqb_spec q k); [|exact Q1]. subst. rewrite K1 in Q1. inversion Q1. congruence.
+          destruct (N.eqb_spec o k); [|exact Q1]. subst. rewrite K1 in Q1. inversion Q1. congruence.
         * rewrite sget_filter by exact NS. rewrite Q2. simpl. rewrite (ident_eqb_neq i id NI). reflexivity.
   Qed.
 
@@ -404,14 +440,50 @@ Section Inv.
   Theorem router_inv_holds h : RInv (run h) (spec_run h).
   Proof. apply RInv_run_from. apply RInv_empty. Qed.
 
+  (* ---------------------------------------------------------------- every history: the latest claimant *)
+  (* No distinctness premise.  Whatever forward entry identity i has after a history, it leads to a
+     pipe that is attached right now, whose latest attach/announcement carried i, with that pipe's
+     uri and strategy - and that pipe is the recorded owner. *)
+  Theorem latest_claimant_reachable h :
+    let m := run h in let s := spec_run h in
+    forall i u st o, fget i m = Some (u, st, o) ->
+      u = uri_of o /\ rget o m = Some i /\ sget o s = Some (i, st).
+  Proof.
+    intros m s i u st o H. destruct (router_inv_holds h) as (_ & _ & _ & _ & BK).
+    destruct (BK _ _ _ _ H) as (Q1 & Q2 & Q3). auto.
+  Qed.
+  (* ... and it stays so until the owner itself leaves or somebody claims i anew: an attach,
+     announcement or detach of a pipe q that is NOT the owner of i's forward entry leaves that entry
+     alone - unless q takes identity i itself, in which case q becomes the owner.  (Any map, so in
+     particular any reachable one.) *)
+  Theorem nonowner_step_keeps_entry m i u st o q :
+    fget i m = Some (u, st, o) -> q <> o ->
+    fget i (ev_step m (EDetach q)) = Some (u, st, o) /\
+    (forall ido, fget i (ev_step m (EAttach q ido)) =
+                 if ident_eqb (eff_id placeholder q ido) i then Some (uri_of q, SDefault, q) else Some (u, st, o)) /\
+    (forall ido t, fget i (ev_step m (EAnnounce q ido t)) =
+                   if ident_eqb (eff_id placeholder q ido) i then Some (uri_of q, strat_of_type t, q) else Some (u, st, o)).
+  Proof.
+    intros H NQ. assert (releases q m i = false) as RL by (apply (releases_nonowner q m i u st o H); congruence).
+    split; [|split].
+    - simpl. rewrite rmp_fget, RL. exact H.
+    - intros ido. simpl. destruct (ident_eqb (eff_id placeholder q ido) i) eqn:E.
+      + apply ident_eqb_eq in E. rewrite <- E. apply add_peer_fget_same.
+      + rewrite add_peer_fget_other, RL; [exact H|]. intros EQ. rewrite EQ, ident_eqb_refl in E. discriminate.
+    - intros ido t. simpl. destruct (ident_eqb (eff_id placeholder q ido) i) eqn:E.
+      + apply ident_eqb_eq in E. rewrite <- E. apply upd_fget_same.
+      + rewrite upd_fget_other, RL; [exact H|]. intros EQ. rewrite EQ, ident_eqb_refl in E. discriminate.
+  Qed.
+
   (* ---------------------------------------------------------------- distinct identities: exact *)
   (* additionally: identities of live pipes are pairwise distinct, the reverse map has no entry
-     beyond the live pipes, and every live pipe is REACHABLE under its identity with ITS uri. *)
+     beyond the live pipes, and every live pipe is REACHABLE under its identity with ITS uri (and
+     is the owner of that entry). *)
   Definition Exact (m : rmap) (s : spec) : Prop :=
     RInv m s /\
     (forall p q i st st', sget p s = Some (i, st) -> sget q s = Some (i, st') -> p = q) /\
     (forall p i, rget p m = Some i -> exists st, sget p s = Some (i, st)) /\
-    (forall p i st, sget p s = Some (i, st) -> fget i m = Some (uri_of p, st)).
+    (forall p i st, sget p s = Some (i, st) -> fget i m = Some (uri_of p, st, p)).
 
   Lemma others_with_nil id p s :
     NoDup (map fst s) -> others_with id p s = [] ->
@@ -429,9 +501,8 @@ Section Inv.
     Exact m s ->
     (forall q st', q <> p -> sget q s <> Some (id, st')) ->
     (forall q, rget q m' = if q =? p then Some id else rget q m) ->
-    fget id m' = Some (uri_of p, st) ->
-    (forall j, j <> id -> fget j m' = if match rget p m with Some o => ident_eqb o j | None => false end
-                                      then None else fget j m) ->
+    fget id m' = Some (uri_of p, st, p) ->
+    (forall j, j <> id -> fget j m' = if releases p m j then None else fget j m) ->
     RInv m' (aset N.eqb p (id, st) s) ->
     Exact m' (aset N.eqb p (id, st) s).
   Proof.
@@ -448,9 +519,8 @@ Section Inv.
       + subst. rewrite sget_set_eq. intros [= <- <-]. exact HF.
       + rewrite sget_set_neq by assumption. intros H.
         assert (i <> id) as NI. { intros ->. exact (FR _ _ n H). }
-        rewrite HO by exact NI. destruct (rget p m) as [o|] eqn:G; [|apply TP; exact H].
-        destruct (ident_eqb o i) eqn:F; [|apply TP; exact H].
-        apply ident_eqb_eq in F. subst o. destruct (RS _ _ G) as [sp SP].
+        rewrite HO by exact NI. destruct (releases p m i) eqn:RL; [|apply TP; exact H].
+        apply releases_true_iff in RL. destruct RL as (G & _). destruct (RS _ _ G) as [sp SP].
         exfalso. apply n. exact (INJ _ _ _ _ _ H SP).
   Qed.
 
@@ -486,9 +556,8 @@ Section Inv.
         rewrite sget_rm_neq by assumption. apply RS.
       + intros q i sq. unfold sget. destruct (N.eqb_spec q p); [subst; rewrite sget_rm_eq; discriminate|].
         rewrite sget_rm_neq by assumption. intros H. rewrite rmp_fget.
-        destruct (rget p m) as [o|] eqn:G; [|apply TP; exact H].
-        destruct (ident_eqb o i) eqn:F; [|apply TP; exact H].
-        apply ident_eqb_eq in F. subst o. destruct (RS _ _ G) as [sp SP].
+        destruct (releases p m i) eqn:RL; [|apply TP; exact H].
+        apply releases_true_iff in RL. destruct RL as (G & _). destruct (RS _ _ G) as [sp SP].
         exfalso. apply n. exact (INJ _ _ _ _ _ H SP).
     - split; [exact RI'|]. split; [|split].
       + intros a b i sa sb. rewrite !sget_filter by exact NS.
@@ -534,9 +603,9 @@ Section Inv.
   Theorem lookup_true_peer_holds h :
     distinct_hist placeholder h = true ->
     let m := run h in let s := spec_run h in
-    (forall p i st, sget p s = Some (i, st) -> rget p m = Some i /\ fget i m = Some (uri_of p, st)) /\
+    (forall p i st, sget p s = Some (i, st) -> rget p m = Some i /\ fget i m = Some (uri_of p, st, p)) /\
     (forall p i, rget p m = Some i -> exists st, sget p s = Some (i, st)) /\
-    (forall i u st, fget i m = Some (u, st) -> exists p, sget p s = Some (i, st) /\ u = uri_of p) /\
+    (forall i u st o, fget i m = Some (u, st, o) -> sget o s = Some (i, st) /\ u = uri_of o) /\
     (forall p q i, rget p m = Some i -> rget q m = Some i -> p = q).
   Proof.
     intros D m s. destruct (Exact_run_from rm_empty [] h Exact_empty D) as (RI & INJ & RS & TP).
@@ -544,7 +613,7 @@ Section Inv.
     split; [|split; [|split]].
     - intros p i st H. split; [exact (SR _ _ _ H)|exact (TP _ _ _ H)].
     - exact RS.
-    - intros i u st H. destruct (BK _ _ _ H) as (p & _ & P2 & P3). eauto.
+    - intros i u st o H. destruct (BK _ _ _ _ H) as (_ & P2 & P3). auto.
     - intros p q i HP HQ. destruct (RS _ _ HP) as [sp SP]. destruct (RS _ _ HQ) as [sq SQ].
       exact (INJ _ _ _ _ _ SP SQ).
   Qed.
@@ -552,40 +621,99 @@ End Inv.
 
 (* ------------------------------------------------------------------ colliding identities: exact behaviour *)
 (* A second pipe taking an identity that another pipe already carries: the forward entry now
-   leads to the newcomer ("last wins"); the other pipe keeps its reverse entry. *)
+   leads to the newcomer, who becomes its owner ("last wins"); the other pipe keeps its reverse entry. *)
 Lemma collision_last_wins_add id p u m :
-  fget id (add_peer id p u m) = Some (u, SDefault) /\
+  fget id (add_peer id p u m) = Some (u, SDefault, p) /\
   forall q, q <> p -> rget q (add_peer id p u m) = rget q m.
 Proof.
   split; [apply add_peer_fget_same|]. intros q N. rewrite add_peer_rget.
   replace (q =? p) with false by (symmetry; apply N.eqb_neq; exact N). reflexivity.
 Qed.
 Lemma collision_last_wins_upd id p u t m :
-  fget id (update_peer_identity p id u t m) = Some (u, strat_of_type t) /\
+  fget id (update_peer_identity p id u t m) = Some (u, strat_of_type t, p) /\
   forall q, q <> p -> rget q (update_peer_identity p id u t m) = rget q m.
 Proof.
   split; [apply upd_fget_same|]. intros q N. rewrite upd_rget.
   replace (q =? p) with false by (symmetry; apply N.eqb_neq; exact N). reflexivity.
 Qed.
-(* Detaching ANY pipe that carries identity id erases the forward entry of id, also when the entry
-   belongs to another pipe that is still attached: that pipe keeps its reverse entry but can no
-   longer be addressed. *)
-Lemma collision_detach_erases p q id m :
-  p <> q -> rget p m = Some id -> rget q m = Some id ->
+(* Two pipes p, q carry identity id and the forward entry of id belongs to p.  Detaching q takes
+   away q's reverse entry and NOTHING else: p keeps its reverse entry, the forward entry of id still
+   leads to p, no other forward entry changes. *)
+Lemma collision_detach_keeps_live p q id u st m :
+  p <> q -> rget p m = Some id -> rget q m = Some id -> fget id m = Some (u, st, p) ->
   let m' := remove_peer_by_read_pipe q m in
-  rget p m' = Some id /\ fget id m' = None.
+  rget p m' = Some id /\ fget id m' = Some (u, st, p) /\
+  (forall j, fget j m' = fget j m) /\
+  (forall k, rget k m' = if k =? q then None else rget k m).
 Proof.
-  intros N P Q m'. unfold m'. rewrite rmp_rget, rmp_fget, Q, ident_eqb_refl.
-  replace (p =? q) with false by (symmetry; apply N.eqb_neq; exact N). auto.
+  intros N P Q F m'. unfold m'.
+  assert (forall j, fget j (remove_peer_by_read_pipe q m) = fget j m) as FJ.
+  { intros j. rewrite rmp_fget. destruct (ident_eq_dec j id) as [->|NJ].
+    - rewrite (releases_nonowner q m id u st p F N). reflexivity.
+    - rewrite (releases_other_identity q m id j Q NJ). reflexivity. }
+  split; [|split; [|split]].
+  - rewrite rmp_rget. replace (p =? q) with false by (symmetry; apply N.eqb_neq; exact N). exact P.
+  - rewrite FJ. exact F.
+  - exact FJ.
+  - intros k. apply rmp_rget.
 Qed.
-(* Same when a pipe that shared the identity re-announces under a different one. *)
-Lemma collision_reannounce_erases p q id id' u t m :
-  p <> q -> id' <> id -> rget p m = Some id -> rget q m = Some id ->
-  let m' := update_peer_identity q id' u t m in
-  rget p m' = Some id /\ fget id m' = None.
+(* Same when q, which shared the identity, re-announces under a different one: q's own new entry
+   appears, everything else stays. *)
+Lemma collision_reannounce_keeps_live p q id id' u st u' t m :
+  p <> q -> id' <> id -> rget p m = Some id -> rget q m = Some id -> fget id m = Some (u, st, p) ->
+  let m' := update_peer_identity q id' u' t m in
+  rget p m' = Some id /\ fget id m' = Some (u, st, p) /\
+  fget id' m' = Some (u', strat_of_type t, q) /\
+  (forall j, j <> id' -> fget j m' = fget j m) /\
+  (forall k, rget k m' = if k =? q then Some id' else rget k m).
 Proof.
-  intros N NI P Q m'. unfold m'. rewrite upd_rget, upd_fget_other by congruence. rewrite Q, ident_eqb_refl.
-  replace (p =? q) with false by (symmetry; apply N.eqb_neq; exact N). auto.
+  intros N NI P Q F m'. unfold m'.
+  assert (forall j, j <> id' -> fget j (update_peer_identity q id' u' t m) = fget j m) as FJ.
+  { intros j NJ'. rewrite upd_fget_other by exact NJ'. destruct (ident_eq_dec j id) as [->|NJ].
+    - rewrite (releases_nonowner q m id u st p F N). reflexivity.
+    - rewrite (releases_other_identity q m id j Q NJ). reflexivity. }
+  split; [|split; [|split; [|split]]].
+  - rewrite upd_rget. replace (p =? q) with false by (symmetry; apply N.eqb_neq; exact N). exact P.
+  - rewrite FJ by congruence. exact F.
+  - apply upd_fget_same.
+  - exact FJ.
+  - intros k. apply upd_rget.
+Qed.
+(* ... and when q is attached anew (add_peer) under a different identity. *)
+Lemma collision_reattach_keeps_live p q id id' u st u' m :
+  p <> q -> id' <> id -> rget p m = Some id -> rget q m = Some id -> fget id m = Some (u, st, p) ->
+  let m' := add_peer id' q u' m in
+  rget p m' = Some id /\ fget id m' = Some (u, st, p) /\
+  fget id' m' = Some (u', SDefault, q) /\
+  (forall j, j <> id' -> fget j m' = fget j m) /\
+  (forall k, rget k m' = if k =? q then Some id' else rget k m).
+Proof.
+  intros N NI P Q F m'. unfold m'.
+  assert (forall j, j <> id' -> fget j (add_peer id' q u' m) = fget j m) as FJ.
+  { intros j NJ'. rewrite add_peer_fget_other by exact NJ'. destruct (ident_eq_dec j id) as [->|NJ].
+    - rewrite (releases_nonowner q m id u st p F N). reflexivity.
+    - rewrite (releases_other_identity q m id j Q NJ). reflexivity. }
+  split; [|split; [|split; [|split]]].
+  - rewrite add_peer_rget. replace (p =? q) with false by (symmetry; apply N.eqb_neq; exact N). exact P.
+  - rewrite FJ by congruence. exact F.
+  - apply add_peer_fget_same.
+  - exact FJ.
+  - intros k. apply add_peer_rget.
+Qed.
+(* The dual: the detaching pipe q IS the owner.  Its entry goes (and only that one); the other pipe
+   p keeps its reverse entry but is then not addressable - nothing is delivered to the wrong peer. *)
+Lemma collision_owner_detach_removes p q id u st m :
+  p <> q -> rget p m = Some id -> rget q m = Some id -> fget id m = Some (u, st, q) ->
+  let m' := remove_peer_by_read_pipe q m in
+  rget p m' = Some id /\ fget id m' = None /\
+  (forall j, j <> id -> fget j m' = fget j m) /\
+  (forall k, rget k m' = if k =? q then None else rget k m).
+Proof.
+  intros N P Q F m'. unfold m'. split; [|split; [|split]].
+  - rewrite rmp_rget. replace (p =? q) with false by (symmetry; apply N.eqb_neq; exact N). exact P.
+  - rewrite rmp_fget. rewrite (proj2 (releases_true_iff q m id)); [reflexivity|]. split; [exact Q|eauto].
+  - intros j NJ. rewrite rmp_fget. rewrite (releases_other_identity q m id j Q NJ). reflexivity.
+  - intros k. apply rmp_rget.
 Qed.
 (* remove_peer_by_identity with several candidates: any of them may lose its reverse entry;
    with at most one candidate the oracle is irrelevant. *)
